@@ -445,8 +445,15 @@ Contiguous ==
         /\ (Len(rus) + Len(aus) < act'.max => subs'[act'.s] = mem)]_vars
 NotifyOnlyIfMoved == [][notif' # notif /\ act'.op # "Init" => CallEnds /\ mem' # pc.old /\ notif' = notif + 1]_vars
 MovedImpliesNotify == [][CallEnds /\ mem' # pc.old /\ ret' = "ok" => notif' = notif + 1]_vars
-\* liveness: a subscriber that keeps polling while no blocks arrive reaches the tip
-CatchUp == \A s \in Subs : <>[](pc.k = "idle") => <>(subs[s] = mem)
+\* liveness (C04): a subscriber that keeps polling reaches the manager's tip again and again,
+\* whatever submissions and (failed) reorgs keep happening: the tip moves only finitely often (it only
+\* moves to something heavier) and every poll walks towards it.  Strong fairness on Poll because
+\* reorgs disable it temporarily; weak fairness on the steps of a started reorg.
+FairSpec ==
+    /\ Spec
+    /\ WF_vars(RevertStep \/ ApplyStep \/ FailReorg \/ FinishReorg)
+    /\ \A s \in Subs : SF_vars(\E m \in Chunks : Poll(s, m))
+CatchUp == \A s \in Subs : []<>(subs[s] = mem)
 
 \* the history sample always starts at the tip and only names best-chain blocks
 HistoryOnBest == pc.k = "idle" => HistoryIds[1] = Tip /\ \A i \in 1..32 : OnBest(HistoryIds[i])
